@@ -75,17 +75,21 @@ def _quiet_logging() -> None:
 def _stub_summary() -> None:
     from happysimulator.core.simulation import Simulation
 
+    from happysimulator.instrumentation.summary import SimulationSummary
+
     def _build_summary(self):
-        return None
+        return SimulationSummary(duration_s=0.0, total_events_processed=0, events_cancelled=0,
+                                 events_per_second=0.0, wall_clock_seconds=0.0, entities={})
 
     Simulation._build_summary = _build_summary
-    STUBS.append("Simulation._build_summary -> None (float statistics of the finished run; not the subject of any harness)")
+    STUBS.append("Simulation._build_summary -> empty SimulationSummary (float statistics of the finished run; not the subject of any harness)")
 
 
 def _serial_executor() -> None:
     """CrossHair traces one thread.  Partition windows are executed serially."""
     try:
         import happysimulator.parallel.coordinator as co
+        import happysimulator.parallel.simulation as ps
     except Exception:
         return
 
@@ -119,11 +123,13 @@ def _serial_executor() -> None:
         def shutdown(self, *a, **kw):
             pass
 
-    if hasattr(co, "ThreadPoolExecutor"):
-        co.ThreadPoolExecutor = SerialExecutor
-        if hasattr(co, "as_completed"):
-            co.as_completed = lambda futs, timeout=None: list(futs)
-        STUBS.append("parallel.coordinator.ThreadPoolExecutor -> serial executor (thread interleavings outside the claim)")
+    for mod in (co, ps):
+        if hasattr(mod, "ThreadPoolExecutor"):
+            mod.ThreadPoolExecutor = SerialExecutor
+        if hasattr(mod, "as_completed"):
+            mod.as_completed = lambda futs, timeout=None: list(futs)
+    if True:
+        STUBS.append("parallel.coordinator / parallel.simulation ThreadPoolExecutor -> serial executor (thread interleavings outside the claim)")
 
 
 def install() -> None:
